@@ -12,13 +12,16 @@ class is fixed in a harness-side ground-truth table (never computed with xDSL's 
   unknown (test.op, no MemoryEffect trait) never removable
   symbol (test.op_with_symbol, func.func declaration, shard.grid which is also Pure) never removable
   terminator (test.termop with 0..2 successors, scf.yield) never removable
+  unregistered-terminator ("foo.br", a builtin UnregisteredOp with 0..2 successors ending a block) never
+             removable (unknown effects) and its successors ARE control-flow edges
   rec (scf.if, RecursiveMemoryEffect)     removable iff every nested non-terminator op is removable
   pure op with a region (test.pureop holding pure/read/alloc ops) removable when unused
 
 Programs: a region with <= 3 blocks inside `builtin.module { test.op { ... } }` ("cfg" container, SSA
 dominance enforced by the generator because xDSL's verifier does not check it; a use inside an
 unreachable block may name any value of another block, as in MLIR) or the single graph block of
-builtin.module itself ("graph" container: forward/self references, i.e. dead use cycles).  All
+builtin.module itself ("graph" container: forward/self references, i.e. dead use cycles), or the graph
+block of a builtin.module nested in the top-level module ("ngraph": a graph region BELOW the root).  All
 successor assignments and all operand wirings (incl. dead cycles through block arguments,
 uses from unreachable blocks, values captured by nested regions) are enumerated.
 
@@ -55,6 +58,8 @@ from mc.stats import Stats
 REMOVABLE: dict[str, bool | None] = {
     "pure": True, "read": True, "alloc-own": True, "alloc-anon": None,
     "write": False, "unknown": False, "symbol": False, "terminator": False,
+    # an op of an unloaded dialect that ends a block: unknown effects, and its successors ARE control-flow edges
+    "unregistered-terminator": False,
     # "rec" is derived from the nested ops
 }
 
@@ -80,9 +85,15 @@ KINDS: dict[str, tuple[str, int, int, int, str | None]] = {
     "B0": ("terminator", 0, 0, 1, None),  # test.termop [^b]
     "B1": ("terminator", 1, 0, 1, None),  # test.termop (v) [^b]
     "C": ("terminator", 1, 0, 2, None),   # test.termop (v) [^a, ^b]
+    "XT0": ("unregistered-terminator", 0, 0, 0, None),  # "foo.br"() : () -> ()            (builtin UnregisteredOp)
+    "XB0": ("unregistered-terminator", 0, 0, 1, None),  # "foo.br"() [^b]
+    "XC": ("unregistered-terminator", 1, 0, 2, None),   # "foo.br"(v) [^a, ^b]
 }
 TERMS = ("T0", "T1", "B0", "B1", "C")
+XTERMS = ("XT0", "XB0", "XC")
 PURE_INNER = ("D", "P", "R", "A")      # what a test.pureop region may hold (the op declares itself Pure)
+
+GRAPHS = ("graph", "ngraph")   # "ngraph": the graph block of a builtin.module NESTED in the top-level module
 
 ENTRIES = ("dce-pass", "region_dce", "dce-fn", "greedy", "greedy-once", "canonicalize")
 
@@ -120,7 +131,10 @@ def skeletons(sp: dict) -> Iterator[tuple]:
     space summarised by sp["exclude"] = (leaf kinds, max_ops, max_inner) (same container/args/terminators) are skipped,
     so that the spaces of one run are disjoint"""
     excl = sp.get("exclude")
+    need = sp.get("require_term")     # only skeletons with at least one of these terminator kinds
     for sk in _skeletons(sp):
+        if need is not None and not any(t in need for (_na, _ops, t) in sk[1]):
+            continue
         if excl is not None:
             leaf, max_ops, max_inner = excl
             n = 0
@@ -139,10 +153,10 @@ def skeletons(sp: dict) -> Iterator[tuple]:
 def _skeletons(sp: dict) -> Iterator[tuple]:
     leaf, inner_leaf = tuple(sp["leaf"]), tuple(sp.get("inner_leaf", ()))
     max_inner = sp.get("max_inner", 0)
-    if sp["container"] == "graph":
+    if sp["container"] in GRAPHS:
         for ops, _used in _skel_ops(leaf, inner_leaf, sp["max_ops"], max_inner):
             if ops:
-                yield ("graph", ((0, ops, None),))
+                yield (sp["container"], ((0, ops, None),))
         return
 
     def blocks(nb: int, budget: int, first: bool) -> Iterator[tuple]:
@@ -179,7 +193,7 @@ def expand(skel: tuple, ordered_succ: bool = True) -> Iterator[tuple]:
     terminators only with successors (a, b), a <= b)"""
     container, blks = skel
     nb = len(blks)
-    graph = container == "graph"
+    graph = container in GRAPHS
     # ---- number the values (depends on the skeleton only)
     nv = 0
     bargs: list[list[int]] = []
@@ -312,7 +326,7 @@ def static_removable(recs: list[Rec], i: int) -> bool | None:
 def reference(desc: tuple) -> dict[str, Any]:
     container, blks = desc
     recs, nv = analyse(desc)
-    if container == "graph":
+    if container in GRAPHS:
         reach = {0}
     else:
         succs = [tuple(blk[1][-1][2]) if blk[1] else () for blk in blks]
@@ -348,7 +362,7 @@ _REAL: dict[str, Any] = {}
 def _real() -> dict[str, Any]:
     if _REAL:
         return _REAL
-    from xdsl.dialects.builtin import DenseArrayBase, MemRefType, i1, i64
+    from xdsl.dialects.builtin import DenseArrayBase, MemRefType, UnregisteredOp, i1, i64
     from xdsl.irdl import IRDLOperation, irdl_op_definition, result_def, traits_def
     from xdsl.traits import EffectInstance, MemoryEffect, MemoryEffectKind
 
@@ -369,6 +383,7 @@ def _real() -> dict[str, Any]:
     _REAL["i1"] = i1
     _REAL["memref"] = MemRefType(i1, [1])
     _REAL["shape"] = DenseArrayBase.from_list(i64, [2])
+    _REAL["foo.br"] = UnregisteredOp.with_name("foo.br")
     return _REAL
 
 
@@ -423,6 +438,8 @@ def build(desc: tuple) -> Prog:
             return [shard.GridOp.create(properties={"sym_name": StringAttr(f"g{nsym[0]}"), "shape": R["shape"]})]
         if k in TERMS:
             return [TestTermOp.create()]
+        if k in XTERMS:
+            return [R["foo.br"].create()]
         raise KeyError(k)
 
     blocks = [Block(arg_types=[i1] * na) for (na, _ops) in blks]
@@ -479,6 +496,10 @@ def build(desc: tuple) -> Prog:
     if container == "graph":
         p.module = ModuleOp(Region(blocks))
         p.region = p.module.body
+    elif container == "ngraph":
+        inner_module = ModuleOp(Region(blocks))
+        p.region = inner_module.body
+        p.module = ModuleOp([inner_module])
     else:
         p.region = Region(blocks)
         p.module = ModuleOp([TestOp(regions=[p.region])])
@@ -681,6 +702,13 @@ def spaces(quick: bool) -> list[dict]:
         # CFG shapes: unreachable blocks, uses from unreachable blocks, cycles through block arguments
         dict(name="cfg", container="cfg", leaf=cfg, inner_leaf=(), max_inner=0, max_blocks=3, max_ops=4,
              entry_args=(0,), other_args=(0, 1), terms=TERMS),
+        # the same effect/use-chain programs inside a NESTED builtin.module (graph region below the root: forward
+        # references and use cycles that need several liveness sweeps of a nested region)
+        dict(name="effects-ngraph", container="ngraph", leaf=eff, inner_leaf=inner, max_inner=2, max_ops=3),
+        # control flow through UNREGISTERED terminators ("foo.br" with 0..2 successors), mixed with registered ones
+        dict(name="cfg-unreg", container="cfg", leaf=cfg, inner_leaf=(), max_inner=0, max_blocks=3, max_ops=4,
+             entry_args=(0,), other_args=(0, 1), terms=("T0", "XT0", "B0", "XB0", "XC"), ordered_succ=False,
+             require_term=XTERMS, entries=("dce-pass", "dce-fn", "greedy", "canonicalize")),
     ]
     if not quick:
         # the larger spaces skip the two entry points that add least: greedy-once is the first sweep of greedy, region_dce is
@@ -732,6 +760,7 @@ def run(ctx):
         "ground-truth effect table in props/c13.py (pure/read/alloc-of-own-result removable when unused; write/unknown/symbol/terminator never; "
         "scf.if removable iff all nested non-terminators are; memref.alloc: either answer accepted)",
         "successor operands of terminators count as uses (region_dce does not touch block arguments)",
+        "an unregistered op that ends a block and carries successors is a branch: its successors are reachable (MLIR's reading of unknown ops)",
         "xDSL's verifier does not check dominance; the generator only emits dominance-correct programs (MLIR rule for unreachable blocks)",
     ]
 
